@@ -243,7 +243,7 @@ theorem inv_init : Inv init := by
   have : init = run base
       (builtinConsts.map (fun n => Op.bind n (T.float (some 64) true)) ++
         [Op.bind "U" (T.gate 3 1)]) := by
-    simp [init, run, SymTab.step, empty, base]
+    simp [init, run, SymTab.step, empty, base, Gen.builtinConstWidth, Gen.builtinConstIsConst, Gen.builtinGate]
   rw [this]; exact inv_run _ _ inv_base
 
 /-- … hence so does every state reachable from it by any history. -/
@@ -582,8 +582,8 @@ theorem initial_builtins :
     init.stack.length = 1 ∧
     (∀ n ∈ builtinConsts ++ ["U"], init.lookupId n ≠ none) := by
   refine ⟨?_, ?_, ?_⟩ <;>
-    simp [init, run, SymTab.step, empty, builtinConsts, SymTab.newBindingNoCheck, Scope.containsName,
-      Scope.get, Scope.insert, SymTab.lookupId]
+    simp [init, run, SymTab.step, empty, builtinConsts, Gen.builtinConsts, Gen.builtinConstWidth, Gen.builtinConstIsConst,
+      Gen.builtinGate, SymTab.newBindingNoCheck, Scope.containsName, Scope.get, Scope.insert, SymTab.lookupId]
 
 /-! ### non-vacuity -/
 
